@@ -177,25 +177,31 @@ def obligations(r, tier, seed):
         obs.append(Ob("C17/same-kind/%s/copy" % kind, identical, funcs=FUNCS, light=True))
 
     # ---- ids differ
-    for kind in ["vertex:SE2", "odometry:SE3", "landmark:SE2-R2", "custom:array", "custom:scalar"]:
+    for kind in ["vertex:SE2", "odometry:SE3", "landmark:SE2-R2", "landmark:SE3-R3", "custom:array", "custom:scalar"]:
         def ids_differ(k, kind=kind):
             tol = k.pos("tol")
-            base = [4] if kind.startswith("vertex") else [1, 2]
-            variants = [[5]] if kind.startswith("vertex") else [[9, 2], [1, 9], [9, 8], [2, 1]]
-            x, _ = build(k, kind, "x", base)
-            for ids in variants:
+            # falsy ids (0) are deliberately among the values: 0 is an id like any other, None is "no id"
+            pairs = [([4], [5]), ([0], [1]), ([0], [-1])] if kind.startswith("vertex") else \
+                [([1, 2], [9, 2]), ([1, 2], [1, 9]), ([1, 2], [9, 8]), ([1, 2], [2, 1]), ([0, 2], [1, 2]), ([3, 0], [3, 1]), ([0, 1], [1, 0])]
+            for base, ids in pairs:
+                x, _ = build(k, kind, "x", base)
                 y, _ = build_copy(k, kind, "x", ids)
                 for a, b, lab in ((x, y, "xy"), (y, x, "yx")):
-                    res = k.returns(lambda a=a, b=b: a.equals(b, tol), "ids %r %s returns" % (ids, lab))
+                    res = k.returns(lambda a=a, b=b: a.equals(b, tol), "ids %r vs %r %s returns" % (base, ids, lab))
                     if res is not None:
-                        k.holds(neg(k, res), "ids %r differ => unequal (%s)" % (ids, lab))
+                        k.holds(neg(k, res), "ids %r vs %r differ => unequal (%s)" % (base, ids, lab))
             if kind.startswith("landmark"):
-                y, _ = build_copy(k, kind, "x", base)
-                y.offset_id = 8
-                k.holds(neg(k, x.equals(y, tol)), "offset id differs => unequal")
-                y.offset_id = None
-                k.holds(neg(k, x.equals(y, tol)), "offset id None vs int => unequal")
-                k.holds(neg(k, y.equals(x, tol)), "offset id None vs int => unequal (reverse)")
+                for ia, ib in ((7, 8), (7, None), (0, None), (0, 1), (None, 1), (0, -1)):
+                    x, _ = build(k, kind, "x", [1, 2])
+                    y, _ = build_copy(k, kind, "x", [1, 2])
+                    x.offset_id, y.offset_id = ia, ib
+                    k.holds(neg(k, x.equals(y, tol)), "offset ids %r vs %r => unequal" % (ia, ib))
+                    k.holds(neg(k, y.equals(x, tol)), "offset ids %r vs %r => unequal (reverse)" % (ia, ib))
+                for same in (0, None, 7):
+                    x, _ = build(k, kind, "x", [1, 2])
+                    y, _ = build_copy(k, kind, "x", [1, 2])
+                    x.offset_id = y.offset_id = same
+                    k.holds(x.equals(y, tol), "same offset id %r (and same everything else) => equal" % (same,))
         obs.append(Ob("C17/ids-differ/%s" % kind, ids_differ, funcs=FUNCS, light=True))
 
     # ---- vertex count with 3 ids vs 2 ids, graph sizes / order
